@@ -215,7 +215,30 @@ fn exec_byz_fill(case: &Case, target: u8, channels: usize, bits: usize, capacity
     *stats.fired.entry(kind.into()).or_default() += 1;
     Ok(match res {
         Err(c) => Some(panic_viol(&c, &format!("{tname}: {bad:?}"), case)),
-        Ok(Err(_)) => None,
+        Ok(Err(_)) => {
+            // The caller got its error and carries on with the same buffer: the frame-level entry point is
+            // then called with a legal object (whatever it holds) and must return - Ok or Err, never a panic -
+            // and a legal fill afterwards must be taken.
+            if target % 3 != 1 && (8..=24).contains(&bits) {
+                if let Ok(si) = StreamInfo::new(44100, channels, bits) {
+                    let cfg = CfgSpec::default_spec().build(false, None, capacity.clamp(32, 32767));
+                    let after = pan::catch(|| {
+                        let _ = flacenc::encode_fixed_size_frame(&cfg, &fb, 0, &si);
+                    });
+                    stats.ops += 1;
+                    if let Err(c) = after {
+                        return Ok(Some(panic_viol(&c, &format!("encode_fixed_size_frame on the {tname} after it rejected {bad:?}"), case)));
+                    }
+                    let block = quiet_block(bits, capacity.min(40) * channels, 7);
+                    let again = pan::catch(|| fb.fill_interleaved(&block).is_ok() && flacenc::encode_fixed_size_frame(&cfg, &fb, 1, &si).is_ok());
+                    match again {
+                        Err(c) => return Ok(Some(panic_viol(&c, &format!("legal fill + encode on the {tname} after it rejected {bad:?}"), case))),
+                        Ok(_) => {}
+                    }
+                }
+            }
+            None
+        }
         Ok(Ok(())) => Some(viol(
             "byzantine_accepted",
             kind,
@@ -547,6 +570,7 @@ pub fn run(ctx: &crate::RunCtx) -> (Summary, Vec<Violation>) {
             continue;
         }
         let case = gen_case(ctx.seed, i);
+        crate::progress::begin(&|| serde_json::to_value(&case).unwrap());
         sum.cases += 1;
         *sum.ops_hist.entry(case_kind(&case).into()).or_default() += 1;
         let before: u64 = stats.fired.values().sum();
